@@ -4,6 +4,7 @@
 package casketfile
 
 import (
+	"unicode/utf8"
 	"bytes"
 	"strings"
 
@@ -54,6 +55,21 @@ func VerifH10aLexerAnyByte() {
 	n := verifrt.IntRange("len", 0, 2+verifrt.Tier())
 	data := verifrt.Bytes("src", n)
 	toks, _ := allTokens(bytes.NewReader(data))
+	// reference: text that is valid UTF-8 and has no quote, comment or escape character consists of
+	// the whitespace-separated words, exactly as written (whitespace in the Unicode sense, by
+	// character -- not by byte)
+	plain := utf8.Valid(data) && (n == 0 || data[0] != 0xEF)
+	for _, b := range data {
+		plain = plain && b != '"' && b != '#' && b != '\\'
+	}
+	if plain {
+		want := strings.Fields(string(data))
+		ok := len(toks) == len(want)
+		for i := range want {
+			ok = ok && i < len(toks) && toks[i].Text == want[i]
+		}
+		verifrt.Assert(ok, "unquoted-words-exactly-as-written")
+	}
 	verifrt.Observe("ntok", len(toks))
 }
 
